@@ -85,6 +85,12 @@ def equality(args):
             others = And(*[a[j] == b[j] for j in range(n) if j != i])
             ctx.check('differs-in-coordinate-%d' % i, And(others, Or(a[i] - b[i] >= TOL, b[i] - a[i] >= TOL), r),
                       witness=_collision(a, b, i))
+        # ids are data, not identity: from_dict restores them and deepcopy / pickle keep them, so two points may carry
+        # the same id -- equality still means equal coordinates
+        S = I.Individual(list(b))
+        S.id = A.id
+        ctx.check('equality-does-not-depend-on-the-id', Not(Iff(A == S, _close(a, b))))
+        ctx.check('equality-does-not-depend-on-the-id(swapped)', Not(Iff(S == A, _close(a, b))))
         ha, hb = A.__hash__(), B.__hash__()
         ctx.check('identical-vectors-identical-hash', And(And(*[x == y for x, y in zip(a, b)]), ha != hb))
         ctx.check('hash-is-int-like', not isinstance(ha, (int, core.SNum)))
